@@ -7,6 +7,8 @@ normal form the hash is meant to respect).
 Quantifiers: all values; all texts; all pairs of event streams (`List SItem`: events, possibly ending in an error item).
 -/
 import SwimVerif.Proofs.ReconEqMat
+import SwimVerif.Proofs.ReconEqLeaves
+import SwimVerif.Model.ReconEqProto
 import SwimVerif.Proofs.ReconStruct
 
 namespace SwimVerif.ReconEq
@@ -187,6 +189,28 @@ theorem C15_cmp_sound_on_printed_fails :
     print .compact (.record .nil (.val (.int .i32 1) (.val (.record .nil (.val (.int .i32 2) .nil)) .nil))) = "{1,{2}}".toList ∧
     compareRecon "{{1,2}}".toList "{1,{2}}".toList = true ∧
     hashCalls "{{1,2}}".toList ≠ hashCalls "{1,{2}}".toList := by decide +kernel
+
+/-- WHEN the comparator answers `Some(true)` — all pairs of event streams that are each one complete value (the validator
+is `InProgress` strictly inside, `Init` at the end): the two streams have the same events in the same order except for
+where their `StartBody` / `EndRecord` events stand.  The comparator never confuses leaves, attributes or slots; the only
+thing it can get wrong is the position of braces. -/
+theorem C15_cmp_true_only_moves_braces (a b : List Event) (ha : Single a) (hb : Single b)
+    (h : incrementalCompare (a.map .ev) (b.map .ev) = some true) :
+    evsAgree (leavesOf a) (leavesOf b) = true := compare_true_same_leaves a b ha hb h
+
+/-- Hence the monitor's class for C15-N3 is exact: whenever `compare_recon_values` (as modelled) says `true` for two
+valid single-value texts, the pair is in the class `same-leaves` — there is no `other` merge the modelled code can
+make, so the known-finding entry cannot hide a different defect of the comparison. -/
+theorem C15_merge_class_exact (a b : List Char) (fa : (events a).2 = .fin) (fb : (events b).2 = .fin)
+    (ha : singleB (events a).1 = true) (hb : singleB (events b).1 = true) (h : compareRecon a b = true) :
+    mergeClass a b = "same-leaves" := by
+  have hl := compareRecon_true_same_leaves a b fa fb ha hb h
+  unfold mergeClass
+  simp [fa, fb, ha, hb, hl, h]
+
+example : singleB (events "{{1,2}}".toList).1 = true ∧ singleB (events "@a(1) {k: {2}}".toList).1 = true ∧
+    singleB (events "7".toList).1 = true ∧ mergeClass "{{1,2}}".toList "{1,{2}}".toList = "same-leaves" := by
+  decide +kernel
 
 /-- What holds (for ALL values): equal values in canonical layout compare equal — the "never split" half on canonical
 streams (`C15_cmp_complete_canonical`), and a text compares equal to itself / an invalid text only to itself
